@@ -410,6 +410,26 @@ func literalSubstringOfPath(c *Ctx, v ssa.Value, depth int) bool {
 			if ci.Pkg == "strings" && strings.HasPrefix(ci.Name, "Cut") && x.Type().String() == "string" {
 				return literalSubstringOfPath(c, call.Call.Args[0], depth-1)
 			}
+			// one of several results of a repo helper (`segment, rest, hasRest := splitProviderSegment(path)`)
+			if sc := call.Call.StaticCallee(); sc != nil && sc.Blocks != nil && c.inRepo(sc) && x.Type().String() == "string" {
+				for i, a := range call.Call.Args {
+					if a.Type().String() != "string" {
+						continue
+					}
+					if !literalSubstringOfPath(c, a, depth-1) {
+						return false
+					}
+					if i < len(sc.Params) {
+						acceptedParams[sc.Params[i]] = true
+					}
+				}
+				for _, ret := range returnsOf(sc) {
+					if x.Index >= len(ret.Results) || !literalSubstringOfPath(c, ret.Results[x.Index], depth-1) {
+						return false
+					}
+				}
+				return true
+			}
 		}
 	case *ssa.Call:
 		ci := describeCall(&x.Call)
